@@ -426,6 +426,24 @@ def gen_elf(rng, big=False):
                       "align": 0, "gap": 0})
     if len(loads) > 1 and all(s["phys"] == 0 for s in loads):
         loads[-1]["phys"] += pgsz
+    # A LOAD nested in the file-backed part of the highest one and holding the same bytes (the usual
+    # x86_64 kdump layout: kernel text inside the direct mapping; DESIGN section 8, reading (ii): segments
+    # may overlap if they agree).  It has the highest start but ends below the end of its host, so
+    # "the end of the highest-starting segment" is not the end of memory.
+    nested = None
+    host = loads[-1]
+    if rng.random() < 0.3 and len(host["data"]) >= 2 * pgsz and host["phys"] % pgsz == 0:
+        npages = len(host["data"]) // pgsz
+        a = rng.randrange(1, npages)                       # starts at least one page into the host
+        n = rng.randrange(1, npages - a + 1) * pgsz        # whole pages, inside the file-backed part
+        if host["phys"] + a * pgsz + n < host["phys"] + host["memsz"] and rng.random() < 0.8:
+            pass
+        else:
+            n = max(pgsz, n - pgsz) if a * pgsz + n > pgsz else n
+        if (host["phys"] + a * pgsz + n + pgsz - 1) // pgsz < (host["phys"] + host["memsz"] + pgsz - 1) // pgsz:
+            nested = {"type": 1, "flags": 5, "phys": host["phys"] + a * pgsz, "memsz": n,
+                      "data": host["data"][a * pgsz:a * pgsz + n], "align": 0, "gap": 0}
+            loads.append(nested)
     # virtual addresses: disjoint ranges, in an order that may differ from the physical one
     vbase = (0xffff880000000000 if w64 else 0xc0000000) if rng.random() < 0.7 else (16 * pgsz)
     order = list(range(len(loads)))
@@ -471,7 +489,7 @@ def gen_elf(rng, big=False):
            "phextra": hx(phextra), "pgsz": hx(pgsz), "ptr": hx(ptr)}
     info = {"pgsz": pgsz, "loads": loads, "w64": w64,
             "key": "elf w%d be%d m%d pg%d n%d%s" % (64 if w64 else 32, be, machine, shift, len(loads),
-                                                    " vshuf" if mode >= 0.45 else ""),
+                                                    (" vshuf" if mode >= 0.45 else "") + (" nested" if nested else "")),
             "pfns": sorted({(s["phys"] + o) // pgsz for s in loads for o in (0, max(len(s["data"]) - 1, 0))}),
             "maxpfn": max((s["phys"] + s["memsz"] + pgsz - 1) // pgsz for s in loads)}
     return lay, segs, info
